@@ -5,10 +5,12 @@ from checks import gpbft_common as g
 
 # clauses of the property that are (so far) theorems about single calls on arbitrary states, not about runs; the per-op
 # oracles judge them on every honest participant of every run. Updated when Props/C07 §RunLevel covers them.
-PARTIAL = ["run-level theorems (Props/C07 §RunLevel: emitted_valid, emitted_shapes, longest_prefix_maximal/_characterised, "
-           "quality_tally_meaning, quality_first_votes, prepare0_run, candidates_complete, converge_adopts_best_ticket) are for "
-           "the instance-level `run`; their participant-API versions (queue drain, several instances) and Eff.rebroadcast are "
-           "not stated — the per-op oracles judge those on every honest participant of every run",
+PARTIAL = ["run-level theorems: Props/C07 §RunLevel for the instance-level `run`, §RunLevelParticipant for the participant API "
+           "(queue, drain through ReceiveMany in any map order) and per instance of multi-instance runs (emitted_valid_participant/"
+           "_multi, prepare0_participant/_multi over the QUALITY votes counted while in QUALITY, candidates_complete_*, "
+           "converge_adopts_best_ticket_*), Eff.rebroadcast expanded against the own earlier broadcasts (wire_valid_*); the "
+           "justification's own instance id / supplemental data / aggregate signature are not in the model (doc-comment of "
+           "§RunLevelParticipant) — the per-op oracles judge those on every honest participant of every run",
            "candidates_complete holds for CONVERGE/PREPARE/COMMIT only: a participant pulled from QUALITY straight to DECIDE "
            "(skipToDecide / COMMIT quorum) keeps an incomplete candidate set — harmless (candidates are only read by "
            "tryConverge, DECIDE never returns there); kept as a decide-checked example",
